@@ -2,7 +2,11 @@
 // entries; a repeated key / an assignment of an unacceptable kind is reported by that call and the
 // assembler stays usable.
 // Record: id, "c12", engine, value(s), annotated script, observation
-//   engine: basic:<proto> | enum:any | bind:S | bind:M | gen:S | gen:M
+//   engine: basic:<proto> | enum:any | bind:S | bind:M | gen:S | gen:M | tbind:<type> | tgen:<type>
+//           (tbind/tgen: the typed family — bindnode over inferred Go types, gendemo where the type
+//           exists; <type> in the text form of harness/lib/schema_ty.go; value = the expected
+//           type-level read-back with "z" for an absent optional field; a call annotated !E<T> must
+//           return an error of any class at a position of type T)
 //   script: segments separated by " RS " (NodeBuilder.Reset between them); a call token may carry the
 //           class the contract demands after '!' (none = ok)
 //   value(s): the value each segment must build, ';'-separated
@@ -398,6 +402,10 @@ func (g *injGen) typedValue(t *lib.SchTy, nul bool, v *lib.Val) []*lib.Op {
 			ops = append(ops, g.typedValue(ft.T, ft.Nul, e.V)...)
 		}
 		return append(ops, op("FI"))
+	}
+	if t.K == 'I' && v.I.Sign() >= 0 && g.r.Chance(15) {
+		// an int that arrives as a datamodel.UintNode within the int64 range is acceptable
+		return append(ops, &lib.Op{Code: "XN", N: &lib.NSpec{Tag: 'u', V: v}})
 	}
 	if g.r.Chance(25) {
 		return append(ops, &lib.Op{Code: "XN", N: lib.PlainSpec(v)})
